@@ -530,6 +530,7 @@ func runC11(c *Ctx) {
 		c.check(nB == 1 && len(bad) == 0, "hand-off.splits-collected-first", ic.ID, p.Pos(ic.Decl.Pos()), "the splits are collected before the merge output is uploaded", "implCommit uploads the merged index before collecting the splits")
 	}
 	checkIteratorNilOnlyAtExhaustion(c, "hand-off.iterator-nil-at-exhaustion")
+	checkGenericErrorDiscipline(c, "pkg/core")
 }
 
 func existVarName(v *types.Var) string { return v.Name() }
@@ -972,4 +973,5 @@ func runC12(c *Ctx) {
 	checkListApplySiblings(c, "done-splits-only.listing-errors")
 	checkSilentSkipOnlyNotExists(c, c.P.BodyOf(c.P.Func("pkg/core.getSplitAsync")), "done-splits-only.split-skip-only-not-exists")
 	checkNoRelabelAsMissing(c, "done-splits-only.no-relabel")
+	checkGenericErrorDiscipline(c, "pkg/core")
 }
